@@ -14,10 +14,10 @@ LEVEL_NOTE = ("modelled, not verified: fnmatch.translate and the `re` engine of 
               "Model/Glob.lean (validated exhaustively on small alphabets); matching is on code points of "
               "surrogate-escaped names")
 RULE = ("exhaustive: every pattern of length <= 4 (quick: <= 3) over {a,B,*,?,[,],!,-,/} x every name of length <= 3 "
-        "over {a,b,B,-,/,]} through Filter.matches; plus seeded random longer patterns/names with non-ASCII and "
+        "over {a,b,B,-,/,],[} plus the diagonal (name or path equal to the pattern text) through Filter.matches; plus seeded random longer patterns/names with non-ASCII and "
         "invalid UTF-8; distinct by (pattern, name); every case is non-trivial (reaches the matcher)")
 PAT_ALPHA = "aB*?[]!-/"
-NAME_ALPHA = "abB-/]"
+NAME_ALPHA = "abB-/]["
 
 
 def run(tier, seed):
@@ -35,7 +35,8 @@ def run(tier, seed):
         reqs, exp = [], []
         for p in pats:
             ns = names if (tier == "thorough" and len(p) <= 3) or len(p) <= 2 else rng.sample(names, 40)
-            for n in ns:
+            # the diagonal: the entry's name (or whole path) is the pattern text itself
+            for n in list(ns) + [p, "/" + p, "/q" + p]:
                 loc = "/d/" + n if not n.startswith("/") else n
                 reqs.append({"op": "rmMatches", "pat": hx(p.encode()), "loc": hx(loc.encode())})
                 try:
@@ -49,6 +50,8 @@ def run(tier, seed):
             p = b"".join(rng.choice(extra + [b"a", b"b", b"B", b"*", b"?"]) for _ in range(rng.randint(1, 6)))
             n = b"/x/" + b"".join(rng.choice([b"a", b"b", b"B", b"c", b"-", b"]", b"\\", b"^", b"caf\xc3\xa9", b"\xff",
                                               b"\xe2\x82\xac", b".", b"\n", b"&", b"~", b"|"]) for _ in range(rng.randint(0, 5)))
+            if rng.random() < 0.15:
+                n = rng.choice([b"/x/" + p, p if p.startswith(b"/") else b"/" + p])
             reqs.append({"op": "rmMatches", "pat": hx(p), "loc": hx(n)})
             try:
                 e = Filter(os.fsdecode(p)).matches(os.fsdecode(n))
